@@ -27,20 +27,35 @@ REAL = ["tpmstream.__main__ (argparse dispatch, convert, type, example)", "tpmst
         "tpmstream.data (bundled captures)", "all front-ends and printers"] + common.REAL_DECODER
 ASSUMPTIONS = ["in-process harness (patched sys.argv/stdin, redirect_stdout, SystemExit caught) is validated against real "
                "subprocess runs on a quota of cases", "files live in a per-run temporary directory outside /repo and /verif"]
-TIERS = {"quick": {"runs": 2500, "budget": 80, "run_timeout": 90}, "thorough": {"runs": 60000, "budget": 780, "run_timeout": 120}}
+TIERS = {"quick": {"runs": 2900, "budget": 80, "run_timeout": 90}, "thorough": {"runs": 60000, "budget": 780, "run_timeout": 120}}
 N_EXAMPLE_QUICK = 6
+N_EXAMPLE_SUBSET_QUICK = 370
 
 
 def make_case(i, rng, tier):
     L = layout()
-    n_ex = N_EXAMPLE_QUICK if tier == "quick" else 64
+    names = example_names()
+    n_ex = N_EXAMPLE_QUICK if tier == "quick" else len(names)
+    n_sub = N_EXAMPLE_SUBSET_QUICK if tier == "quick" else 3 * len(names)
+    if n_ex <= i < n_ex + n_sub:
+        # `example X` over a seeded handful of the bundled captures (the list of data files is a module attribute of the
+        # CLI): 20 times cheaper, so many more names get their turn
+        import os
+        base = int(os.environ.get("VERIF_SEED", "20261004"))
+        kind, name, cc = names[(base * 104729 + (i - n_ex) * 31) % len(names)]
+        c = {"mode": "example", "name": name, "kind": kind, "subset": sorted(rng.sample(range(122), rng.choice((3, 5, 8))))}
+        if cc is not None:
+            c["cc"] = cc
+        return c
     if i < n_ex:
-        if i % 3 == 2:
-            name = rng.choice(["TPMT_PUBLIC", "TPM2B_DIGEST", "TPMS_AUTH_COMMAND", "TPMT_HA", "TPML_PCR_SELECTION",
-                               "TPMA_SESSION", "TPMS_PCR_SELECTION", "TPM2B_NONCE", "TPMT_SYM_DEF", "TPMS_CAPABILITY_DATA"])
-            return {"mode": "example", "name": name, "kind": "type"}
-        cc = rng.choice(sorted(L.commands))
-        return {"mode": "example", "name": L.commands[cc]["name"], "kind": "command", "cc": cc}
+        # every name has its turn: the thorough tier runs them all, the quick tier a window that moves with VERIF_SEED
+        import os
+        base = int(os.environ.get("VERIF_SEED", "20261004"))
+        kind, name, cc = names[(base * 7919 + i * 29) % len(names)] if tier == "quick" else names[i]
+        c = {"mode": "example", "name": name, "kind": kind}
+        if cc is not None:
+            c["cc"] = cc
+        return c
     r = rng.random()
     if r < 0.12:
         kind = rng.choice(("badtype", "badcommand", "nocommand"))
@@ -60,9 +75,13 @@ def make_case(i, rng, tier):
                 "in": rng.choice(("binary", "binary", "hex")), "alias": rng.random() < 0.3, "split": rng.random() < 0.2}
     # convert
     fmt = rng.choice(("binary", "binary", "hex", "swtpm-log", "pcapng", "auto"))
-    if fmt in ("swtpm-log", "pcapng", "auto") or rng.random() < 0.5:
+    how = rng.choice(("file", "file", "files", "stdin"))
+    if fmt in ("swtpm-log", "pcapng", "auto") or rng.random() < 0.5 or (how == "files" and fmt == "binary"):
         from .. import gen as _gen
         k = _gen.Knobs(rng)
+        if how == "files" and fmt in ("binary", "auto"):
+            k.p_magic = 0.6          # user data that looks like the start of some other file format, cut right there
+            k.max_buf = max(k.max_buf, 8)
         if fmt in ("auto", "binary") and rng.random() < 0.5:
             k.p_text_tail, k.p_fail, k.p_sessions = 0.9, 0.0, 0.0      # binary content that ends like a text line
             k.max_buf = max(k.max_buf, 2)
@@ -94,12 +113,33 @@ def make_case(i, rng, tier):
         blob, _ = medium.write_pcapng([data[a:b] for a, b in zip(bb, bb[1:]) if b > a], rng)
     else:
         blob = data if rng.random() < 0.5 else medium.write_hex(data, rng, noise=False)
-    how = rng.choice(("file", "file", "files", "stdin"))
     cuts = sorted(rng.randrange(len(blob) + 1) for _ in range(rng.randint(1, 2))) if how == "files" else []
+    if how == "files":
+        # a piece may start with bytes that look like some other file format, or be empty
+        from ..gen import MAGICS
+        at = sorted(set(i_ for m_ in MAGICS for i_ in [blob.find(m_)] if i_ > 0))
+        if at and rng.random() < 0.6:
+            cuts = sorted(set(cuts[:1] + [rng.choice(at)]))
+        if rng.random() < 0.1 and cuts:
+            cuts = sorted(cuts + [cuts[0]])
     return {"mode": "convert", "in": fmt, "out": rng.choice(("pretty", "pretty", "events", "binary")),
             "root": inp["root"], "cc": inp["cc"], "blob": blob.hex(), "how": how, "cuts": cuts, "family": fam,
             "chunks": [rng.choice((1, 2, 5, 16, 4096))], "label": inp["label"], "subprocess": rng.random() < 0.1,
             "explicit_in": rng.random() < 0.8, "alias": rng.random() < 0.15}
+
+
+_NAMES = None
+
+
+def example_names():
+    """(kind, name, cc) of everything `example` can be asked for: every command code, every structure type name"""
+    global _NAMES
+    if _NAMES is None:
+        L = layout()
+        out = [("command", L.commands[cc]["name"], cc) for cc in sorted(L.commands)]
+        out += [("type", n, None) for n in L.struct_names() if "_SYN" not in n and "#" not in n]
+        _NAMES = out
+    return _NAMES
 
 
 def _typo(name, how):
@@ -302,8 +342,17 @@ def _example(case, res):
     """`example X`: every block names X's kind and re-decodes to what is shown"""
     from ..world import Task
     L = layout()
-    status, out, err = cli.run_inprocess(["example", case["name"]])
-    label = "example %s" % case["name"]
+    import tpmstream.__main__ as m
+    all_files = m.example_data_files
+    if case.get("subset"):
+        ordered = sorted(all_files, key=lambda f: f.name)
+        m.example_data_files = [ordered[j] for j in case["subset"] if j < len(ordered)]
+        res.count("example-over-subset-of-captures")
+    try:
+        status, out, err = cli.run_inprocess(["ex" if case.get("subset") and case["subset"][0] % 2 else "example", case["name"]])
+    finally:
+        m.example_data_files = all_files
+    label = "example %s%s" % (case["name"], " (captures %s)" % case["subset"] if case.get("subset") else "")
     if status != 0:
         res.v("C19.e", "C19.e:status", "%s: exit status %d, stderr %r" % (label, status, err[-300:]))
         return
@@ -331,14 +380,19 @@ def _example(case, res):
                 return
             spec = dict(id="r", type=tname, data=raw.hex(), cc=None, strict=False, consumer="pretty")
         t = Task(spec).run()
-        if t.exc_sum is not None:
-            # encrypted responses cannot be re-decoded without the flag: try with it
-            t = Task(dict(spec, enc=True)).run()
+        shown = [ln.split() for ln in lines[1:]]
+        if tname == "Response" and (t.exc_sum is not None or [r_ for r_ in (cli.strip(ln).split() for ln in t.out) if r_[:1] != ["Warning:"]] != shown):
+            # a response captured with response encryption re-decodes to what is shown only with that flag (an opaque and
+            # a plain size-prefixed first parameter have the same layout, so the plain decode may even succeed)
+            t2 = Task(dict(spec, enc=True)).run()
+            if t2.exc_sum is None:
+                t = t2
         if t.exc_sum is not None:
             res.count("example-redecode-raised:" + t.exc_sum[0])
             continue
-        shown = [ln.split() for ln in lines[1:]]
-        again = [cli.strip(ln).split() for ln in t.out]
+        # the block shows the rows of the captured *object*; decoding its bytes again (warn mode) may add warnings about
+        # out-of-range values the capture contains - they are not part of "what is shown"
+        again = [r_ for r_ in (cli.strip(ln).split() for ln in t.out) if r_[:1] != ["Warning:"]]
         if shown != again:
             res.v("C19.e", "C19.e:redecode", "%s: %s block does not re-decode to the rows shown: %s" % (label, tname, common.show_diff(again, shown, "rows")))
             return
